@@ -542,14 +542,22 @@ func (c *FnCtx) stdModel(fr *frame, st *State, site ssa.Instruction, name string
 		case *Loc:
 			oldv = c.loadLoc(st, p)
 		case Term:
-			oldv = c.loadPtr(st, p, dt)
+			if p.Sort == "LOCAL" {
+				oldv = Term{S: c.get(st, strings.TrimPrefix(p.S, "LOCAL:")), Sort: c.sortOf(dt), T: dt}
+			} else {
+				oldv = c.loadPtr(st, p, dt)
+			}
 		}
 		val := Term{S: c.define("rd_val", nv.Sort, fmt.Sprintf("(ite %s %s %s)", okc, nv.S, oldv.S)), Sort: nv.Sort, T: dt}
 		switch p := target.(type) {
 		case *Loc:
 			c.storeLoc(st, p, val)
 		case Term:
-			c.storePtr(st, p, dt, val)
+			if p.Sort == "LOCAL" {
+				c.set(st, strings.TrimPrefix(p.S, "LOCAL:"), val.S)
+			} else {
+				c.storePtr(st, p, dt, val)
+			}
 		}
 		c.set(st, offReg, fmt.Sprintf("(store %s %s (ite %s (+ %s %d) %s))", c.get(st, offReg), ref, okc, o, n, slLen(b)))
 		errv := Term{S: c.fresh("rderr", SIface), Sort: SIface}
@@ -599,24 +607,27 @@ func (c *FnCtx) stdModel(fr *frame, st *State, site ssa.Instruction, name string
 			return Term{S: fmt.Sprintf("((_ to_fp 8 24) %s)", b.S), Sort: SFP32, T: types.Typ[types.Float32]}, true
 		}
 		return Term{S: fmt.Sprintf("((_ to_fp 8 24) ((_ int2bv 32) %s))", b.S), Sort: SFP32, T: types.Typ[types.Float32]}, true
-	case "sync/atomic.AddInt32", "sync/atomic.LoadInt32", "sync/atomic.StoreInt32":
+	case "sync/atomic.AddInt32", "sync/atomic.LoadInt32", "sync/atomic.StoreInt32",
+		"sync/atomic.AddUint32", "sync/atomic.LoadUint32", "sync/atomic.StoreUint32",
+		"sync/atomic.AddInt64", "sync/atomic.LoadInt64", "sync/atomic.StoreInt64",
+		"sync/atomic.AddUint64", "sync/atomic.LoadUint64", "sync/atomic.StoreUint64":
 		target := c.valIn(fr, cc.Args[0])
 		var cur Term
-		t32 := types.Typ[types.Int32]
+		t32 := derefT(cc.Args[0].Type())
 		switch p := target.(type) {
 		case *Loc:
 			cur = c.loadLoc(st, p)
 		case Term:
 			cur = c.loadPtr(st, p, t32)
 		}
-		if strings.HasSuffix(name, "LoadInt32") {
+		if strings.Contains(name, ".Load") {
 			return cur, true
 		}
 		var nv Term
-		if strings.HasSuffix(name, "AddInt32") {
+		if strings.Contains(name, ".Add") {
 			d := c.val(fr, cc.Args[1])
 			if cur.Sort == SInt {
-				nv = Term{S: fmt.Sprintf("(+ %s %s)", cur.S, d.S), Sort: SInt, T: t32}
+				nv = Term{S: c.wrapInt(fmt.Sprintf("(+ %s %s)", cur.S, d.S), t32), Sort: SInt, T: t32}
 			} else {
 				nv = Term{S: fmt.Sprintf("(bvadd %s %s)", cur.S, d.S), Sort: cur.Sort, T: t32}
 			}
@@ -629,7 +640,7 @@ func (c *FnCtx) stdModel(fr *frame, st *State, site ssa.Instruction, name string
 		case Term:
 			c.storePtr(st, p, t32, nv)
 		}
-		if strings.HasSuffix(name, "AddInt32") {
+		if strings.Contains(name, ".Add") {
 			return nv, true
 		}
 		return nil, true
@@ -644,7 +655,7 @@ func (c *FnCtx) stdModel(fr *frame, st *State, site ssa.Instruction, name string
 			h(c, fr, st, name, cc)
 		}
 		return c.noopCall(st, cc.Signature()), true
-	case strings.HasPrefix(name, "time."), strings.HasPrefix(name, "runtime."):
+	case strings.HasPrefix(name, "time."), strings.HasPrefix(name, "runtime."), strings.HasPrefix(name, "math."), strings.HasPrefix(name, "strings."), strings.HasPrefix(name, "os."), strings.HasPrefix(name, "errors."):
 		return c.noopCall(st, cc.Signature()), true
 	}
 	return nil, false
@@ -665,10 +676,10 @@ func stdWriteSet(c *FnCtx, name string, cc *ssa.CallCommon) ([]string, bool) {
 		return out, true
 	case strings.Contains(name, "Endian).Put"):
 		return []string{c.elemRegion(byteT)}, true
-	case strings.Contains(name, "Endian).Uint"), strings.HasPrefix(name, "math."), strings.HasPrefix(name, "fmt."), strings.HasPrefix(name, "(*sync."), strings.HasPrefix(name, "strconv."), strings.HasPrefix(name, "time."), strings.HasPrefix(name, "runtime."), strings.HasPrefix(name, "(*os.File)."):
+	case strings.Contains(name, "Endian).Uint"), strings.HasPrefix(name, "math."), strings.HasPrefix(name, "fmt."), strings.HasPrefix(name, "(*sync."), strings.HasPrefix(name, "strconv."), strings.HasPrefix(name, "time."), strings.HasPrefix(name, "runtime."), strings.HasPrefix(name, "(*os.File)."), strings.HasPrefix(name, "strings."), strings.HasPrefix(name, "os."), strings.HasPrefix(name, "errors."):
 		return nil, true
 	case strings.HasPrefix(name, "sync/atomic."):
-		if strings.HasSuffix(name, "LoadInt32") {
+		if strings.Contains(name, ".Load") {
 			return nil, true
 		}
 		return c.storeRegions(cc.Args[0]), true
